@@ -291,6 +291,10 @@ class _Gen:
                 # never a future inside pool work: a bounded pool would legitimately starve
                 ctx2 = dict(ctx, fdepth=ctx["fdepth"] + 1, child=True, in_pool=True)
                 body = [["probe", self.nid()]] + self.block(depth + 1, set(bound), ctx2, budget)
+                if self.faults and ctx["in_try"] > 0 and rng.random() < 0.35:
+                    # the body dies with an uncaught exception or failed push ON THE POOL WORKER; the
+                    # creator's enclosing try sees it at deref, the worker must be left clean
+                    body.append(self.thrower(depth + 1, set(bound), ctx2, budget))
                 after = self.block(depth + 1, bound, ctx, budget) if rng.random() < 0.4 else []
                 out.append(["future", body, after])
                 out.append(["probe", self.nid()])
@@ -299,8 +303,10 @@ class _Gen:
                 out.append(["boundfn", [["probe", self.nid()]] + self.block(depth + 1, set(bound), ctx2, budget)])
             elif r < 0.92 and not ctx.get("in_pool") and depth < 4:
                 ctx2 = dict(ctx, fdepth=2, child=True, in_pool=True)
-                out.append(["pmap", rng.choice([1, 2, 3]),
-                            [["probe", self.nid()]] + self.block(depth + 2, set(bound), ctx2, budget)])
+                pbody = [["probe", self.nid()]] + self.block(depth + 2, set(bound), ctx2, budget)
+                if self.faults and ctx["in_try"] > 0 and rng.random() < 0.3:
+                    pbody.append(self.thrower(depth + 2, set(bound), ctx2, budget))
+                out.append(["pmap", rng.choice([1, 2, 3]), pbody])
             elif r < 0.945 and depth < 4 and bound:
                 body = [["probe", self.nid()]] + self.block(depth + 1, set(bound), ctx, budget)
                 after = []
